@@ -660,6 +660,28 @@ func (ce *cenv) call(e *CExpr) Term {
 			ts, _ := strconv.Unquote(e.Args[2].Lit)
 			t := ce.resolveType(ts)
 			return fc.hasTag(x, t)
+		case "locked", "wlocked", "sections":
+			// locked(l) / wlocked(l): the guard lock l (a package variable named in a `guarded` clause) is held / write-held;
+			// sections(l): how many times it has been acquired so far
+			var gi *guardInfo
+			if len(e.Args) == 2 && e.Args[1].Kind == CIdent && ce.pkg != nil && ce.pkg.Types != nil {
+				if lv, ok := ce.pkg.Types.Scope().Lookup(e.Args[1].Name).(*types.Var); ok {
+					gi = fc.eng.lockVars[lv]
+				}
+			}
+			if gi == nil {
+				ce.fail("%s() needs the name of a lock declared in a guarded clause that is in force in this check", callee.Name)
+			}
+			if callee.Name == "sections" {
+				t := fc.get(ce.st, gi.sectKey(), SInt, nil)
+				t.T = types.Typ[types.Int]
+				return t
+			}
+			held := fc.get(ce.st, gi.heldKey(), SInt, nil)
+			if callee.Name == "wlocked" {
+				return boolT(fmt.Sprintf("(= %s 2)", held.S))
+			}
+			return boolT(fmt.Sprintf("(>= %s 1)", held.S))
 		case "mapeq":
 			// mapeq(m, old(m)) style: compares dom and val of one map object in two states is done via old(); here: same state
 			ce.fail("mapeq not supported")
